@@ -55,6 +55,20 @@ func VerifRun_C02f() {
 		}
 	}
 	edit(rounds)
+	// optionally the document is saved, then blank lines are inserted at the top and it is saved again (a save
+	// whose text differs from the previous save only in leading white space)
+	if verifBool("blankLinesThenSave") {
+		txt := cur
+		verifVFSPut(a, []byte(txt))
+		_ = l.TextDocumentDidSave(ctx, lsp.DidSaveTextDocumentParams{TextDocument: id, Text: &txt})
+		cur = "\n\n" + cur
+		_ = l.TextDocumentDidChange(ctx, lsp.DidChangeTextDocumentParams{
+			TextDocument:   lsp.VersionedTextDocumentIdentifier{TextDocumentIdentifier: id},
+			ContentChanges: []lsp.TextDocumentContentChangeEvent{{Text: cur}}})
+		txt2 := cur
+		verifVFSPut(a, []byte(txt2))
+		_ = l.TextDocumentDidSave(ctx, lsp.DidSaveTextDocumentParams{TextDocument: id, Text: &txt2})
+	}
 	// optionally the user then deletes everything: select all + delete arrives as one incremental change
 	// over the whole document (or, from clients without incremental sync, as an empty full text)
 	emptied := verifConcretize(verifRange("emptied", 0, 2))
@@ -98,6 +112,30 @@ func VerifRun_C02f() {
 			}
 		}
 		return false
+	}
+	// the function typed last stands on the line where the buffer has it
+	wantLine := 0
+	for i := 0; i+len("function M.f"+strconv.Itoa(rounds)) <= len(cur); i++ {
+		if cur[i:i+len("function M.f"+strconv.Itoa(rounds))] == "function M.f"+strconv.Itoa(rounds) {
+			break
+		}
+		if cur[i] == '\n' {
+			wantLine++
+		}
+	}
+	placed := false
+	var walk2 func(v []lsp.DocumentSymbol)
+	walk2 = func(v []lsp.DocumentSymbol) {
+		for i := range v {
+			if (v[i].Name == "f"+strconv.Itoa(rounds) || v[i].Name == "M.f"+strconv.Itoa(rounds)) && int(v[i].Range.Start.Line) <= wantLine && wantLine <= int(v[i].Range.End.Line) {
+				placed = true
+			}
+			walk2(v[i].Children)
+		}
+	}
+	walk2(syms)
+	if has("f"+strconv.Itoa(rounds)) && !placed {
+		verifViolation("", "the outline places a function on another line than the current buffer does: the request was answered from older text")
 	}
 	if !has("f"+strconv.Itoa(rounds)) || !has("f"+strconv.Itoa(rounds-1)) {
 		verifViolation("", "a function of the current buffer is missing from the outline: the request was answered from older text")
